@@ -4,6 +4,7 @@ import (
 	"fmt"
 	"net"
 	"strings"
+	"sync/atomic"
 	"time"
 
 	"github.com/miekg/dns"
@@ -57,7 +58,25 @@ const xfrKeyName = "axfr."
 const xfrSecret = "so6ZGir4GPAqINNh9U5c3A=="
 const xfrBadSecret = "NoTCJU+DMqFWywaPyxSijrDEA/eC3nK0xi3AMEZuPVk="
 
+// slowCloseConn: a connection whose Close takes a moment and says when it is done, so that the order "connection closed,
+// then channel closed" can be observed from the consumer's side.
+type slowCloseConn struct {
+	net.Conn
+	delay  time.Duration
+	closed int32
+}
+
+func (s *slowCloseConn) Close() error {
+	time.Sleep(s.delay)
+	err := s.Conn.Close()
+	atomic.StoreInt32(&s.closed, 1)
+	return err
+}
+
+var xfrRuns int64
+
 type xfrResult struct {
+	closeOrder string // "" (not observed) | "ok" | "channel closed while the connection was still open"
 	sent   [][]byte // the octets of each envelope as the sender wrote them (without the length prefix)
 	envs   []string // dataN | errId | errRcode | errSoa | errRead | errOther
 	reads  int
@@ -75,7 +94,13 @@ func runTransfer(qtype uint16, qid uint16, qser uint32, envs []xenv, tsig bool) 
 		q.SetIxfr("example.org.", qser, "ns.example.org.", "h.example.org.")
 	}
 	q.Id = qid
-	tr := &dns.Transfer{Conn: &dns.Conn{Conn: cl}, ReadTimeout: 300 * time.Millisecond, WriteTimeout: time.Second}
+	var slow *slowCloseConn
+	var trConn net.Conn = cl
+	if atomic.AddInt64(&xfrRuns, 1)%5 == 0 {
+		slow = &slowCloseConn{Conn: cl, delay: 15 * time.Millisecond}
+		trConn = slow
+	}
+	tr := &dns.Transfer{Conn: &dns.Conn{Conn: trConn}, ReadTimeout: 300 * time.Millisecond, WriteTimeout: time.Second}
 	now := time.Now().Unix()
 	if tsig {
 		tr.TsigSecret = map[string]string{xfrKeyName: xfrSecret}
@@ -170,6 +195,13 @@ loop:
 		case e, ok := <-ch:
 			if !ok {
 				res.closed = true
+				if slow != nil {
+					if atomic.LoadInt32(&slow.closed) == 1 {
+						res.closeOrder = "ok"
+					} else {
+						res.closeOrder = "channel closed while the connection was still open"
+					}
+				}
 				break loop
 			}
 			switch {
@@ -255,6 +287,10 @@ func c15Run(c *Ctx, stream string, qtype uint16, qid uint16, qser uint32, envs [
 		}
 	}
 	got := strings.Join(res.envs, " ")
+	if res.closeOrder != "" {
+		// "ends - closing channel and connection": whoever sees the channel closed finds the connection closed already
+		c.Pred(stream, "connection-closed-when-channel-closes", strings.Join(args, " "), res.closeOrder == "ok", res.closeOrder, "connection closed first", true)
+	}
 	op := "axfr"
 	pre := fmt.Sprint(qid)
 	if qtype == dns.TypeIXFR {
